@@ -1,4 +1,5 @@
 import Xsm.Proofs.Lifecycle
+import Xsm.Proofs.RuntimeEx
 /-!
 # C14 — the interpreter lifecycle is a strict state machine; `stop()` releases everything
 
@@ -44,6 +45,13 @@ awaiting action, are not exhibited. `error` is reached in the code only through 
 service failed with no `onError`); the model has the operation `opFail` but no services, and `_fail`
 accepts status `uninitialized` (table `failGate`), an edge uninitialized → error that only `Reach`
 (not `Edge`) covers: `fail_edges` states it.
+
+DISPROVED for a `stop()` that lands INSIDE a macrostep — finding F72 (C08: F73, C09: F74). The lifecycle model cannot exhibit it
+(quiescent points only), the RUNTIME model (`Xsm/Model/Runtime.lean`: timers, services, suspension windows) can:
+`stop_inside_macrostep_releases_not_everything` (`decide`d on the concrete runs of `Xsm/Proofs/RuntimeEx.lean`) — the status is
+`stopped` and a timer is armed / a service was started BEHIND the stop. On the real engines: `xsmverif/c14stop.py` (stop() called by
+an action of the transition, by a plugin hook, by another task / thread while the interpreter's own task is suspended in the
+macrostep), judged at the moment stop() returned.
 -/
 namespace XSM.C14
 open XSM XSM.Done
@@ -523,5 +531,25 @@ example :
     ((opStart .async finM exU (LSt.new finM)).st.status, (opStart .async finM exU (LSt.new finM)).loop,
      (opStart .async goM exU (LSt.new goM)).st.status, (opStart .async goM exU (LSt.new goM)).loop) =
       ("done", false, "running", true) := by decide
+
+/-! ## stop() inside a macrostep (finding F72) — on the runtime model -/
+
+set_option maxRecDepth 100000 in
+/-- **F72.** *"when it returns every timer … service task, timer thread … has been cancelled or stopped"* is FALSE of model and code
+    when `stop()` arrives while the interpreter's own task is suspended INSIDE a macrostep: `stopRT` clears everything that exists
+    (`C08.never_after_stop`), and the rest of the macrostep then enters its target states and schedules their tasks on the stopped
+    interpreter. sync (`RTEx.runStopSync`: `stop` from another thread at t = 120 while the exit action of `a` blocks until 150): the
+    status is `stopped`, yet `b`'s timer is armed at 150 and `b`'s service was called at 150. async (`RTEx.runStopInside`, no slow
+    action: the stop shares the instant of `R` and lands in the `await` of `cancel_by_owner`): `stopped` with a live timer armed
+    at the instant of the stop; (`RTEx.runStopSvc`) the service of the state entered behind the stop is called, runs and has its
+    completion refused. A stop BETWEEN macrosteps (`RTEx.runStopBetween`) leaves nothing. -/
+theorem stop_inside_macrostep_releases_not_everything :
+    (XSM.RTEx.runStopSync.st.status = "stopped" ∧ XSM.RTEx.runStopSync.timers.map (fun t => (t.owner, t.armed)) = [(["b"], 150)] ∧
+     XSM.RTEx.runStopSync.started = [(["b"], "ib0", 1)]) ∧
+    (XSM.RTEx.runStopInside.st.status = "stopped" ∧ XSM.RTEx.runStopInside.timers.map (fun t => (t.owner, t.armed)) = [(["s"], 50)]) ∧
+    (XSM.RTEx.runStopSvc.st.status = "stopped" ∧ XSM.RTEx.runStopSvc.started = [(["b"], "i", 1)] ∧
+     (XSM.RTEx.runStopSvc.flush.log.reverse.filter (fun r => r.1 = 150)).map (·.2) = ["svc-end:i:ok", "send:done.invoke.i:stopped"]) ∧
+    (XSM.RTEx.runStopBetween.st.status = "stopped" ∧ XSM.RTEx.runStopBetween.timers.length = 0 ∧ XSM.RTEx.runStopBetween.invs.length = 0) := by
+  decide
 
 end XSM.C14
